@@ -283,6 +283,14 @@ func (v *visitor) MatchesNode(node *ast.MatchesNode) reflect.Type {
 	l := v.visit(node.Left)
 	r := v.visit(node.Right)
 
+	// check operator overloading
+	if fns, ok := v.operators["matches"]; ok {
+		t, _, ok := conf.FindSuitableOperatorOverload(fns, v.types, l, r)
+		if ok {
+			return t
+		}
+	}
+
 	if isString(l) && isString(r) {
 		return boolType
 	}
